@@ -26,6 +26,7 @@ import PyomaVerif.Ops.C17Table
 import PyomaVerif.Ops.C08
 import PyomaVerif.Ops.MsGather
 import PyomaVerif.Ops.C02State
+import PyomaVerif.Ops.BuildHank
 /-! Line-protocol driver: one JSON object per line in, one JSON value per line out. -/
 open Lean PV PV.Codec
 
@@ -39,6 +40,7 @@ def allOps : List (String × (Json → Except String Json)) :=
   ++ PV.Ops.MsGather.ops
   ++ PV.Ops.C02State.ops
   ++ PV.Ops.C06All.ops
+  ++ PV.Ops.BuildHank.ops
 
 def handle (line : String) : String :=
   match Json.parse line with
